@@ -113,7 +113,13 @@ Emit == /\ ~done /\ done' = TRUE /\ UNCHANGED pats
                             spellings |-> [p \in {q \in RegFiles : Cardinality(Spell(q)) > 1} |-> SetToSeq(Spell(p))],
                             \* some file is ignored ONLY because a parent directory is excluded (its own last match re-includes it)
                             parentrule |-> \E p \in RegFiles : Prefix(Root, p) /\ Len(p) > Len(Root) + 1 /\
-                                              Ignored(pats, Drop(p, Len(Root))) /\ ~Decide(pats, Drop(p, Len(Root)), FALSE)]))
+                                              Ignored(pats, Drop(p, Len(Root))) /\ ~Decide(pats, Drop(p, Len(Root)), FALSE),
+                            \* a NEGATED directory-only pattern names an ancestor directory of a file that is ignored
+                            negdirrule |-> \E p \in RegFiles : Prefix(Root, p) /\ Len(p) > Len(Root) + 1 /\
+                                              LET rel == Drop(p, Len(Root)) IN
+                                              Ignored(pats, rel) /\
+                                              \E i \in 1..Len(pats) : pats[i].kind = "pat" /\ pats[i].neg /\ pats[i].dironly /\
+                                                 \E k \in 1..(Len(rel) - 1) : Matches(pats[i], SubSeq(rel, 1, k), TRUE)]))
 Next == Add \/ Emit
 Spec == Init /\ [][Next]_vars
 ==============================================================================
